@@ -337,45 +337,52 @@ Fixpoint all_some {A} (l : list (option A)) : option (list A) :=
 Definition spec_rbucket (sc : scope) (ins : list input) (sem : atom) : option (list rinput) :=
   all_some (map (resolve_spec sc) (spec_bucket sc ins sem)).
 
-Definition spec_nind (sc : scope) (ins : list input) : nat :=
-  S (fold_right Nat.max 0 (map i_off (List.filter (fun i => negb (is_dict sc (i_src i)) || N.eqb (i_sem i) a_VERTEX) ins))).
+Definition single_p (k : pkind) : bool := match k with KTriangles | KLines | KPolylist => true | _ => false end.
+Definition is_poly (k : pkind) : bool := match k with KPolylist | KPolygons => true | _ => false end.
+Definition is_tri_kind (k : pkind) : bool := match k with KTriangles | KStrips | KFans => true | _ => false end.
 
+(* the primitive as the file says it.  Conventions: only the first <p> of <triangles>, <lines> and
+   <polylist> is read; nindices is one more than the largest offset among the inputs of the eight
+   known semantics (after the <vertices> expansion) *)
 Definition read_primitive (sc : scope) (k : pkind) (ins : list input)
            (vcount : option (option (list tok))) (ps : list (option (list tok))) : option pview :=
-  match all_some (map parse_index ps), all_some (map (spec_rbucket sc ins) known_sems) with
+  let used := if single_p k then firstn 1 ps else ps in
+  match all_some (map parse_index used), all_some (map (spec_rbucket sc ins) known_sems) with
   | Some pl, Some table =>
-    let nind := spec_nind sc ins in
+    match concat table with
+    | [] => None
+    | _ =>
+    let nind := S (fold_right Nat.max 0 (map r_off (concat table))) in
     let kk := corners_per k in
     let cs := spec_corners k nind pl in
     let rows := length cs in
     let ok_p := forallb (fun p => Nat.eqb (Nat.modulo (length p) nind) 0) pl in
     let vc := match k with
-              | KPolylist => match vcount with Some t => parse_index t | None => None end
-              | KPolygons => Some (polygons_vcounts nind pl)
-              | _ => Some []
+              | KPolylist => match vcount with Some t => option_map Some (parse_index t) | None => None end
+              | KPolygons => Some (Some (polygons_vcounts nind pl))
+              | _ => Some None
               end in
     match vc with
     | None => None
-    | Some vcl =>
-      let is_poly := match k with KPolylist | KPolygons => true | _ => false end in
+    | Some vco =>
       if negb ok_p || negb (Nat.eqb (Nat.modulo rows kk) 0)
-         || (is_poly && negb (Z.eqb (sumZ vcl) (Z.of_nat rows)))
+         || match vco with Some vcl => negb (Z.eqb (sumZ vcl) (Z.of_nat rows)) | None => false end
          || match ps, k with [], KPolygons => false | [], _ => true | _, _ => false end
       then None else
       let view r := (r_uid r, spec_index nind (r_off r) pl cs) in
       let nonempty := negb (Nat.eqb rows 0) in
       let first (i : nat) := if nonempty then option_map view (hd_error (nth i table [])) else None in
       let every (i : nat) := if nonempty then map view (nth i table []) else [] in
-      let tri := match k with KTriangles | KStrips | KFans => true | _ => false end in
       match nth 0 table [], nonempty with
       | [], true => None
       | _, _ =>
-        let idx := seq 0 (length vcl) in
         Some (mkPV nind table (Nat.div rows kk) (first 0) (first 1) (every 2)
-                   (if tri then every 4 else []) (if tri then every 3 else [])
-                   (if is_poly then Some (vcl, map (spec_start vcl) idx, map (spec_end vcl) idx) else None)
+                   (if is_tri_kind k then every 4 else []) (if is_tri_kind k then every 3 else [])
+                   (option_map (fun vcl => let idx := seq 0 (length vcl) in
+                                           (vcl, map (spec_start vcl) idx, map (spec_end vcl) idx)) vco)
                    [])
       end
+    end
     end
   | _, _ => None
   end.
